@@ -5,6 +5,7 @@
 package uasc
 
 import (
+	"bytes"
 	"context"
 	"crypto/rand"
 	"crypto/rsa"
@@ -507,6 +508,15 @@ func (s *SecureChannel) readChunk() (*MessageChunk, error) {
 		}
 
 		if s.kind == server {
+			// a renewal cannot change the security policy or the peer of the channel
+			if _, err := s.getActiveChannelInstance(); err == nil {
+				if m.SecurityPolicyURI != s.cfg.SecurityPolicyURI {
+					return nil, ua.StatusBadSecurityPolicyRejected
+				}
+				if m.SecurityPolicyURI != ua.SecurityPolicyURINone && !bytes.Equal(m.AsymmetricSecurityHeader.SenderCertificate, s.cfg.RemoteCertificate) {
+					return nil, ua.StatusBadCertificateInvalid
+				}
+			}
 			s.prepareServerRenewal()
 		}
 
@@ -790,6 +800,11 @@ func (s *SecureChannel) handleOpenSecureChannelRequest(reqID uint32, svc ua.Requ
 	// Part 6.7.4: The AuthenticationToken should be nil. ???
 	if req.RequestHeader.AuthenticationToken.IntID() != 0 {
 		return ua.StatusBadSecureChannelTokenUnknown
+	}
+
+	// a renewal cannot change the security mode of the channel
+	if _, err := s.getActiveChannelInstance(); err == nil && req.SecurityMode != s.cfg.SecurityMode {
+		return ua.StatusBadSecurityModeRejected
 	}
 
 	s.cfg.Lifetime = req.RequestedLifetime
